@@ -3,6 +3,7 @@ against the real sanitized daemon; monitors from proto.py judge the trace."""
 import os
 import shutil
 import string
+import time
 
 from hypothesis import strategies as st
 
@@ -338,6 +339,20 @@ def run_lockstep(case, workdir, stop_on_violation=False, spec_hook=None):
         spec = proto.Spec(conf, policies_of(tr.banner))
         tr.spec = spec
         for i, ev in enumerate(case["events"]):
+            if ev[0] == "sleep":
+                time.sleep(ev[1])
+                try:
+                    o1, _, _ = d.barrier()
+                    o2, in_use, _ = d.barrier()
+                except dm.DaemonDied as e:
+                    tr.died = True
+                    break
+                out = [b.decode("latin-1") for b in o1 + o2]
+                spec.feed_sleep(i)
+                tr.steps.append(("(sleep %.1fs)" % ev[1], out, in_use))
+                spec.feed_output(i, out)
+                spec.check_in_use(in_use)
+                continue
             line = concretize(ev, spec)
             spec.feed_input(i, line)
             try:
@@ -377,7 +392,43 @@ def close_context(ctx):
     shutil.rmtree(ctx["root"], ignore_errors=True)
 
 
+@st.composite
+def timer_s(draw, pid, tier):
+    """Real one-second timers: instances in various stages, a sleep past the expiry,
+    then late traffic.  (Only real timers can show a timer outliving its request.)"""
+    names = draw(st.permutations(SVC_POOL))[:draw(st.integers(0, 3))]
+    conf = {"modules": ["iauth_class", "iauth_xquery"], "services": [[n, draw(st.sampled_from(proto.PROTOCOLS))] for n in names],
+            "timeout": 1, "rules": [], "logs": [["*.>=info", "file:iauthd.log"]]}
+    kinds = expand(PROFILES["C10"])
+    kinds = [k for k in kinds if k != "!"]
+    rk = REPLY_KINDS["default"]
+    ev = []
+    ids = draw(st.lists(st.integers(1, 9), min_size=2, max_size=5))
+    for cid in ids:
+        sc = [["C", cid, draw(st.sampled_from(IPS)), draw(st.integers(1, 65535))]]
+        for _ in range(draw(st.integers(0, 6))):
+            sc.append(draw(event_s(cid, conf, kinds, rk, (7, 2))))
+        if draw(st.booleans()):
+            sc.extend(completion(draw, cid, conf, sc, rk, (7, 2)))
+        ev.extend(sc)
+    ev.append(["sleep", 1.35])
+    for _ in range(draw(st.integers(0, 6))):
+        ev.append(draw(event_s(draw(st.sampled_from(ids)), conf, kinds, rk, (7, 2))))
+    if draw(st.booleans()):
+        ev.append(["sleep", 1.35])
+    return {"conf": conf, "events": ev}
+
+
+@st.composite
+def c10_s(draw, pid, tier):
+    if draw(st.integers(0, 59)) == 0:
+        return draw(timer_s(pid, tier))
+    return draw(history_s(pid, tier))
+
+
 def strategy(pid, tier, opts):
+    if pid == "C10":
+        return c10_s(pid, tier)
     return history_s(pid, tier)
 
 
@@ -426,7 +477,14 @@ def evaluate(case, ctx):
 
 
 def eval_c10_exit(tr, res, mem, leak):
-    if tr.died or tr.hang:
+    if any(e[0] == "(sleep" or e[0].startswith("(sleep") for e in tr.steps):
+        res.classes.add("real_timer_case")
+    if mem or tr.died:
+        # request lifecycle on a well-formed history: C10 owns memory errors here (DESIGN 2.1a)
+        res.violations.append(proto.Violation("C10", None, "memory_error", "sanitizer report / death while handling requests: %s" % (mem[:1] or ["daemon died, rc=%r" % tr.rc])))
+        res.inconclusive = None
+        return
+    if tr.hang:
         return
     if tr.rc != 0 or leak:
         if leak:
